@@ -281,13 +281,19 @@ def output_path(c, root):
     return None
 
 
-def run_once(ctx, c, order, no_date=False, base=None):
-    """one run of the real binary in a fresh directory; returns an observation dict"""
+def run_once(ctx, c, order, no_date=False, base=None, force_over=None):
+    """one run of the real binary in a fresh directory; returns an observation dict.
+    force_over: bytes placed at the output path beforehand; the run then passes --force (a forced re-creation over an
+    older, longer file must leave exactly the new metainfo - added after seeded change C05-1, a lost truncate)"""
     root = tempfile.mkdtemp(prefix="c05-", dir=base)
     try:
         make_tree(root, c["tree"], order)
-        before = sorted(os.listdir(root))
         argv = argv_of(c, extra_no_date=no_date)
+        if force_over is not None and output_path(c, root) is not None:
+            with open(output_path(c, root), "wb") as f:
+                f.write(force_over)
+            argv = argv[:2] + ["--force"] + argv[2:]
+        before = sorted(os.listdir(root))
         stdin = b""
         if c["tree"]["kind"] == "stdin":
             f = c["tree"]["files"][0]
@@ -599,9 +605,15 @@ def evaluate(ctx, c, version, base):
     # reproducibility: --no-creation-date on the same content populated in another creation order
     order2 = ["reversed", "sorted-desc", "sorted"][c["style"] % 3]
     a = obs if not dated else run_once(ctx, c, "given", no_date=True, base=base)
-    b = run_once(ctx, c, order2, no_date=True, base=base)
+    forced = c["output"] != "stdout" and a["bytes"] is not None and c["style"] % 2 == 0
+    b = run_once(ctx, c, order2, no_date=True, base=base,
+                 force_over=(a["bytes"] + b"l" + b"4:junk" * 120 + b"e") if forced else None)
     res["rerun"] = (a, b)
     rp = []
+    if forced and a["rc"] == 0 and b["rc"] == 0 and b["bytes"] is not None and a["bytes"] != b["bytes"] \
+            and b["bytes"][:len(a["bytes"])] == a["bytes"]:
+        rp.append("--force over an older, longer file at the output path left %d bytes of it after the new metainfo "
+                  "(the written file is not the canonical metainfo of this run)" % (len(b["bytes"]) - len(a["bytes"])))
     if a["rc"] != 0 or b["rc"] != 0 or a["bytes"] is None or b["bytes"] is None:
         rp.append("re-run with --no-creation-date failed (rc %s / %s)" % (a["rc"], b["rc"]))
     elif a["bytes"] != b["bytes"]:
